@@ -75,11 +75,11 @@ def st_case(draw):
         elif kind == "period":
             off = draw(st.sampled_from([0, 0, 0, 0, 1]))
             spec["d"] = draw(st.integers(1, 7)) * interval + (off if interval > 1 else 0)
-            spec["p"] = draw(st.sampled_from([0, 0, 1, 2, 5])) * interval
+            spec["p"] = draw(st.sampled_from([0, 0, 1, 2, 5])) * interval + draw(st.sampled_from([0, 0, 0, 1440, 2880]))  # delays of a day and more too
             spec["imm"] = draw(st.booleans())
         else:
             spec["ds"] = [k * interval for k in draw(st.lists(st.integers(1, 6), min_size=1, max_size=3))]
-            spec["p"] = draw(st.sampled_from([0, 0, 1, 3])) * interval
+            spec["p"] = draw(st.sampled_from([0, 0, 1, 3])) * interval + draw(st.sampled_from([0, 0, 0, 1440]))
             spec["imm"] = draw(st.booleans())
         trigs.append(spec)
     return {"interval": interval, "start_min": start_min, "n_min": n_min, "triggers": trigs}
